@@ -81,12 +81,15 @@ static void canon_add_defaults(Canon &c, const Opt &o) { c.vec(o.default_time_ma
 struct World {
   UserMaps u; std::unique_ptr<Opt> X, Y; Model mx, my;
   World() : X(new Opt()) { mx.alive = true; X->setEnergyWeights(0.25); X->setIntegralNumSteps(2); }
-  int nops() const { return 20; }
+  int nops() const { return 21; }
   bool enabled(int op) const { if ((op >= 11 && op <= 13) || op == 19) return mx.prob >= 0; if (op == 16 || op == 17) return (bool)Y; return true; }
   std::string opname(int op) const { static const char *n[] = {"flags=0x00", "flags=0xff", "flags=0x11", "flags=0x22", "setSpatialMap(null)", "setSpatialMap(Proj A)", "setSpatialMap(Scale B)", "setInitState(dur,N=1)", "setInitState(dur,N=3)", "setInitState(tp,N=1)", "setInitState(tp,N=3)",
-      "getDimension()", "generateInitialGuess()", "evaluate()", "Y = Opt(X) copy-ctor", "Y = X (assign)", "swap X<->Y", "Y.setSpatialMap(Proj A)", "setInitState(dur,N=3 with the same durations and inner waypoints, other end points / boundary state / start time)", "checkGradients() (built-in workspace)"}; return n[op]; }
+      "getDimension()", "generateInitialGuess()", "evaluate()", "Y = Opt(X) copy-ctor", "Y = X (assign)", "swap X<->Y", "Y.setSpatialMap(Proj A)", "setInitState(dur,N=3 with the same durations and inner waypoints, other end points / boundary state / start time)", "checkGradients() (built-in workspace)",
+      "user map A reconfigured in place (Proj <-> Scale: the per-point dofs change) and registered again, at the same address, on every optimizer that uses it"}; return n[op]; }
   void apply(int op) {
     if (op <= 10 || op == 18) mx.fresh = false; if (op == 17) my.fresh = false;
+    // seeded change C09-m12: setSpatialMap() returning early when the pointer is the active one keeps the layout of the map's former configuration
+    if (op == 20) { u.sa.mode = u.sa.mode == 1 ? 0 : 1; if (mx.sm == 1) { X->setSpatialMap(&u.sa); mx.fresh = false; } if (Y && my.sm == 1) { Y->setSpatialMap(&u.sa); my.fresh = false; } return; }
     if (op == 18) { const auto &p = problems()[4]; X->setInitState(p.T, p.P, p.t0, p.bc); mx.prob = 4; }
     else if (op == 19) { Eigen::VectorXd x = X->generateInitialGuess(); for (int i = 0; i < x.size(); ++i) x(i) = 1.25 + i / 32.0; TimeCost tc; RunCost<D> rc = RunCost<D>::mode(5); (void)X->checkGradients(x, tc, rc); mx.ws = true; mx.fresh = true; }
     else if (op < 4) { X->setOptimizationFlags(flags_of(MASKS[op])); mx.mask = MASKS[op]; }
@@ -100,7 +103,7 @@ struct World {
     else if (op == 16) { std::swap(X, Y); std::swap(mx, my); }
     else if (op == 17) { Y->setSpatialMap(&u.sa); my.sm = 1; }
   }
-  std::string canon() const { Canon c; canon_add_opt(c, *X, false); canon_add_defaults(c, *X); c.i(mx.prob); c.i(mx.sm); c.i(mx.fresh); c.i(Y ? 1 : 0); if (Y) { canon_add_opt(c, *Y, false); canon_add_defaults(c, *Y); c.i(my.prob); c.i(my.sm); c.i(my.fresh); } return c.s; }
+  std::string canon() const { Canon c; canon_add_opt(c, *X, false); canon_add_defaults(c, *X); c.i(u.sa.mode); c.i(mx.prob); c.i(mx.sm); c.i(mx.fresh); c.i(Y ? 1 : 0); if (Y) { canon_add_opt(c, *Y, false); canon_add_defaults(c, *Y); c.i(my.prob); c.i(my.sm); c.i(my.fresh); } return c.s; }
   std::string check(std::string &digest) { Canon dg; std::string m = check_opt(*X, mx, u, "X", dg); if (m.empty() && Y) m = check_opt(*Y, my, u, "Y", dg); digest = dg.s; return m; }
 };
 static const char *TAG = "optimizer reconfiguration";
